@@ -28,7 +28,7 @@ EVIDENCE_DIR = os.path.join(VERIF, "evidence")
 REPLAY_DIR = os.path.join(VERIF, "replays")
 KNOWN_FILE = os.path.join(VERIF, "KNOWN_FINDINGS.txt")
 N_SLOTS = int(os.environ.get("VERIF_SLOTS", "12"))
-DEFAULT_MEM_GB = 8
+DEFAULT_MEM_GB = 4.5
 
 TRUSTED_BASE = [
     "rustc (Kani's pinned nightly) MIR generation",
@@ -183,32 +183,54 @@ class Undecided(Exception):
 
 # --------------------------------------------------------------------------- slots
 
+SLOT_GB = float(os.environ.get("VERIF_SLOT_GB", "4.5"))
+
+
 class Slot:
+    """A job holds ceil(mem_gb / SLOT_GB) of the N_SLOTS global slot locks (flock, shared by all concurrently running
+    ./check processes), so that the sum of the RLIMIT_AS limits of running CBMC processes stays below N_SLOTS*SLOT_GB."""
+
     def __init__(self):
-        self.fd = None
+        self.fds = []
         self.dir = None
 
-    def acquire(self):
+    def acquire(self, mem_gb=SLOT_GB):
         os.makedirs(CACHE, exist_ok=True)
+        need = max(1, min(N_SLOTS, int(-(-mem_gb // SLOT_GB))))
         while True:
-            for k in range(N_SLOTS):
-                d = os.path.join(CACHE, "slot%02d" % k)
-                os.makedirs(d, exist_ok=True)
-                fd = os.open(os.path.join(d, "lock"), os.O_CREAT | os.O_RDWR)
-                try:
-                    fcntl.flock(fd, fcntl.LOCK_EX | fcntl.LOCK_NB)
-                except OSError:
+            gate = os.open(os.path.join(CACHE, "acquire.lock"), os.O_CREAT | os.O_RDWR)
+            fcntl.flock(gate, fcntl.LOCK_EX)
+            got = []
+            try:
+                for k in range(N_SLOTS):
+                    d = os.path.join(CACHE, "slot%02d" % k)
+                    os.makedirs(d, exist_ok=True)
+                    fd = os.open(os.path.join(d, "lock"), os.O_CREAT | os.O_RDWR)
+                    try:
+                        fcntl.flock(fd, fcntl.LOCK_EX | fcntl.LOCK_NB)
+                    except OSError:
+                        os.close(fd)
+                        continue
+                    got.append((fd, d))
+                    if len(got) == need:
+                        break
+                if len(got) == need:
+                    self.fds = [g[0] for g in got]
+                    self.dir = got[0][1]
+                    return self
+                for fd, _ in got:
+                    fcntl.flock(fd, fcntl.LOCK_UN)
                     os.close(fd)
-                    continue
-                self.fd, self.dir = fd, d
-                return self
-            time.sleep(0.5)
+            finally:
+                fcntl.flock(gate, fcntl.LOCK_UN)
+                os.close(gate)
+            time.sleep(1.0)
 
     def release(self):
-        if self.fd is not None:
-            fcntl.flock(self.fd, fcntl.LOCK_UN)
-            os.close(self.fd)
-            self.fd = None
+        for fd in self.fds:
+            fcntl.flock(fd, fcntl.LOCK_UN)
+            os.close(fd)
+        self.fds = []
 
 
 # --------------------------------------------------------------------------- running kani
@@ -324,11 +346,22 @@ def strip_noise(out):
 
 
 def run_harness(h, src, logdir):
-    slot = Slot().acquire()
+    slot = Slot().acquire(h["mem_gb"])
     try:
-        cmd = kani_cmd(h, slot.dir)
+        # pass 1 without concrete playback: `--concrete-playback` makes Kani drop CBMC's --slice-formula and add
+        # --trace, which multiplies memory (measured: 98 K SAT variables vs. OOM at 24 GB for the same harness)
+        cmd = kani_cmd(h, slot.dir, playback=False)
         logfile = os.path.join(logdir, h["name"] + ".log")
         rc, out, timed_out, wall = run_cmd(cmd, src, h["timeout"], h["mem_gb"], logfile=logfile)
+        if not timed_out and "VERIFICATION:- FAILED" in out and re.search(r"Status: FAILURE", out) \
+                and not re.search(r"CBMC failed with status|ut of memory", out):
+            # pass 2 only for failing harnesses: obtain the concrete counterexample as a unit test
+            cmd2 = kani_cmd(h, slot.dir, playback=True)
+            rc2, out2, to2, wall2 = run_cmd(cmd2, src, h["timeout"], h["mem_gb"], logfile=logfile + ".playback")
+            wall += wall2
+            pb = parse_kani_output(out2)["playback"] if not to2 else []
+        else:
+            pb = []
     finally:
         slot.release()
     r = {"harness": h["name"], "wall_s": round(wall, 1), "rc": rc, "timed_out": timed_out}
@@ -342,7 +375,11 @@ def run_harness(h, src, logdir):
     r["covers_total"] = len(pr["covers"])
     r["covers"] = [{"description": c["description"], "status": c["status"]} for c in pr["covers"]]
     r["failures"] = [{"description": c["description"], "function": c["function"], "location": c["location"], "id": c["id"]} for c in pr["failures"]]
-    r["playback"] = pr["playback"]
+    r["playback"] = pb
+    if re.search(r"CBMC failed with status|Out of memory|ran out of memory|std::bad_alloc|Killed|internal compiler error|error: could not compile", out) or rc is None or rc < 0:
+        r["verdict"] = "UNDECIDED"
+        r["reason"] = "resource/tool failure (OOM under the %s GB limit, crash or compile error): %s" % (h["mem_gb"], strip_noise(out)[-700:])
+        return r
     if not pr["successful"] and not pr["failed"]:
         r["verdict"] = "UNDECIDED"
         tail = strip_noise(out)[-1500:]
@@ -401,7 +438,7 @@ def native_replay(h, fragment, src, test_code, logdir, release=False):
     env = {"CARGO_TARGET_DIR": os.path.join(CACHE, "playback-target" + ("-rel" if release else ""))}
     if release:
         env.update({"CARGO_PROFILE_DEV_OPT_LEVEL": "3", "CARGO_PROFILE_DEV_OVERFLOW_CHECKS": "false",
-                    "CARGO_PROFILE_DEV_DEBUG_ASSERTIONS": "false"})
+                    "CARGO_PROFILE_DEV_DEBUG_ASSERTIONS": "false", "CARGO_PROFILE_TEST_OPT_LEVEL": "3", "CARGO_PROFILE_TEST_OVERFLOW_CHECKS": "false", "CARGO_PROFILE_TEST_DEBUG_ASSERTIONS": "false"})
     cmd = ["cargo", "kani", "playback", "-Z", "concrete-playback", "--no-default-features",
            "--features", h["features"], "--lib", "--", tname, "--exact", "--test-threads", "1"]
     # --exact wants the full path
@@ -474,7 +511,7 @@ def run_property(prop, tier, seed, selftests=None, only=None):
                 if not ok:
                     undecided.append("selftest %s failed: %s" % (st["name"], msg))
         if not undecided:
-            order = sorted(sel, key=lambda x: -x[1]["timeout"])
+            order = sorted(sel, key=lambda x: (-x[1]["mem_gb"], -x[1]["timeout"]))
             lock = threading.Lock()
             threads = []
 
@@ -707,3 +744,39 @@ def replay_file(prop, path):
         return 0 if ok is False else 2
     finally:
         shutil.rmtree(scratch, ignore_errors=True)
+
+
+def compile_only(frag_names=None, features=None):
+    """Developer aid: inject fragments (all, or the named ones plus always/needs) and only run Kani's codegen."""
+    frags = load_fragments()
+    if frag_names:
+        deps = set()
+        for f in frags:
+            if f.name in frag_names:
+                deps.update(f.meta.get("needs", []))
+        use = [f for f in frags if f.always or f.name in frag_names or f.name in deps]
+    else:
+        use = frags
+    feats = features or sorted({h["features"] for f in use for h in f.harnesses} | {f.features for f in use})
+    scratch, src = make_scratch(use)
+    rc_all = 0
+    try:
+        for ft in feats:
+            slot = Slot().acquire(4)
+            try:
+                cmd = ["cargo", "kani", "--only-codegen", "--no-default-features", "--features", ft,
+                       "--target-dir", os.path.join(slot.dir, "target"), "-Z", "stubbing"]
+                rc, out, to, wall = run_cmd(cmd, src, 600, 16)
+            finally:
+                slot.release()
+            errs = [l for l in strip_noise(out).splitlines()]
+            ok = rc == 0
+            print("features=%s: %s (%.0fs)" % (ft, "OK" if ok else "FAILED", wall))
+            if not ok:
+                rc_all = 1
+                txt = strip_noise(out)
+                i = txt.find("error")
+                print(txt[i:i + 6000])
+    finally:
+        shutil.rmtree(scratch, ignore_errors=True)
+    return rc_all
